@@ -15,7 +15,6 @@ class Prop:
     engine = "VT+TH (virtual-time schedulers single-threaded; event-loop / new-thread / timeout schedulers under controlled threads)"
     quick_runs = 30000
     thorough_runs = 400000
-    quick_budget = 80.0
     chunk = 100
     time_unit = "virtual seconds (VT part) / simulated seconds (TH part)"
     rule = ("VT: seeded periods, dispose instants and raise positions for schedule_periodic on VirtualTimeScheduler, TestScheduler, "
